@@ -296,7 +296,7 @@ func runC20(c *Ctx) {
 	for k := 0; k < c.N; k++ {
 		n := c.c20Size()
 		// ---- oracle lines on general-position (random float) inputs
-		switch k % 12 {
+		switch k % 14 {
 		case 0, 1:
 			c.c20Oracle("uniform", c.c20Uniform(n, 10, 10))
 		case 2:
@@ -335,6 +335,51 @@ func runC20(c *Ctx) {
 			c.c20Oracle("smallheight", p)
 		case 11:
 			c.c20Oracle("clustered", c20Map(c.c20Clustered(n), 100, 0, 0))
+		case 12:
+			// far from the origin relative to the spacing: offsets 1e7 … 1e10 (both axes, one axis, negative) at
+			// spacing 1e-3 / 1 / 1e3; an orientation test on absolute coordinates drowns in rounding noise here
+			if n > 60 {
+				n = 4 + c.Rng.Intn(57)
+			}
+			if n < 4 {
+				n = 4
+			}
+			off := []float64{1e7, 1e8, 1e9, 1e10}[c.Rng.Intn(4)]
+			sp := []float64{1e-3, 1, 1e3}[c.Rng.Intn(3)]
+			ox, oy := off, off
+			switch c.Rng.Intn(5) {
+			case 0:
+				ox = 0
+			case 1:
+				oy = 0
+			case 2:
+				ox, oy = -off, -off
+			case 3:
+				ox = -off
+			}
+			c.c20Oracle("faroffset", c20Map(c.c20Uniform(n, 10, 10), sp, ox, oy))
+		case 13:
+			// tiny clusters: spacing 1e-3 … 1e-6, around the origin and around large offsets (spacing/offset >= 1e-13,
+			// so the points stay distinct: >= 1000 ulps apart on average)
+			if n > 60 {
+				n = 4 + c.Rng.Intn(57)
+			}
+			if n < 4 {
+				n = 4
+			}
+			sp := []float64{1e-3, 1e-4, 1e-5, 1e-6}[c.Rng.Intn(4)]
+			off := []float64{0, 0, 1, 1e3, 1e6, 1e7}[c.Rng.Intn(6)]
+			for off != 0 && sp/off < 1e-13 {
+				off /= 10
+			}
+			ox, oy := off, off
+			switch c.Rng.Intn(4) {
+			case 0:
+				ox = -off
+			case 1:
+				oy = 0
+			}
+			c.c20Oracle("tinycluster", c20Map(c.c20Uniform(n, 10, 10), sp, ox, oy))
 		}
 		// ---- model lines on small-integer inputs (exact float arithmetic)
 		m := 3 + c.Rng.Intn(23)
